@@ -118,6 +118,7 @@ def run_c19(ctx, fa):
             tries += 1
             mode = rnd.random()
             g = gen.Gen(rnd, logical=False, max_depth=rnd.choice([2, 3, 3, 4]), big=False, recursive=False, ns=mode < 0.75)
+            g.letter_suffixes = True
             if mode < 0.75:
                 # every type lives in a namespace so that every reference can be spelled from everywhere
                 g.pick_ns = lambda enclosing, _g=g: _g.r.choice(["a", "a", "a.b", "x.y"]) if _g.r.random() < 0.5 or not enclosing else enclosing
